@@ -1611,7 +1611,7 @@ pub fn pingreq_cut_then_resume_script(r: &mut Rng, _index: u64, _tier: Tier) -> 
 }
 
 /// Shared (C04, C13, C08): an inbound packet is half read - the network delivers its first bytes,
-/// the wait is given up - when the application makes a request that is refused locally (too large
+/// the wait is given up - when the application makes a request that is served (a QoS 0 or a small QoS 1 publish) or one that is refused locally (too large
 /// for what is left of the transmit arena, for the broker's limit, or carrying an illegal
 /// property; the arena is nearly full of an unacknowledged publish); then the rest arrives.  The
 /// message is delivered exactly as sent.
@@ -1625,7 +1625,7 @@ pub fn refused_request_while_half_read_script(r: &mut Rng, _index: u64, _tier: T
     let mut s = vec![connect_with(SpMode::Force(false), AckMode::Hold, props)];
     // the arena is filled to within a few bytes by a publish the broker does not acknowledge
     if r.chance(3, 4) {
-        let leave = r.below(12);
+        let leave = r.below(48);
         s.push(Step::Publish(PubSpec { topic: "k".into(), payload: PayloadSpec::Fill { len: cfg.tx - leave - 9, tag: 0xF111, ascii: false }, qos: 1, retain: false, props: vec![], correlate: None, cancel_at: None }));
     }
     let q = r.below(3) as u8;
@@ -1641,12 +1641,16 @@ pub fn refused_request_while_half_read_script(r: &mut Rng, _index: u64, _tier: T
         _ => poll0(),
     });
     for _ in 0..r.range(1, 2) {
-        s.push(match r.below(6) {
+        s.push(match r.below(9) {
             0 | 1 => Step::Disconnect(DiscSpec { reason: Some(*r.pick(&[0u8, 4])), props: Some(vec![Prop::ReasonString(str_of(r.range(100, 700), r))]), cancel_at: None }),
             2 => pubq(1, "refused/big", 0xB16, r.range(300, 900)),
             3 => pubq(0, "refused/big0", 0xB17, r.range(300, 900)),
             4 => Step::Subscribe(SubSpec { filters: vec![FilterSpec { filter: "refused/#".into(), max_qos: 1, no_local: false, rap: false, rh: 0 }], props: vec![Prop::TopicAlias(3)], cancel_at: None }),
-            _ => Step::Unsubscribe(UnsubSpec { filters: vec!["u".repeat(r.range(300, 900))], props: vec![], cancel_at: None }),
+            5 => Step::Unsubscribe(UnsubSpec { filters: vec!["u".repeat(r.range(300, 900))], props: vec![], cancel_at: None }),
+            // ... or requests that are served: a QoS 0 publish (encoded in whatever scratch space
+            // there is and written at once), a small QoS 1 publish
+            6 | 7 => pubq(0, "z", 0xB18, r.range(0, 24)),
+            _ => pubq(1, "z1", 0xB19, r.range(0, 8)),
         });
     }
     for _ in 0..3 {
